@@ -320,9 +320,25 @@ func (option *Option) emptyValue() reflect.Value {
 }
 
 func (option *Option) empty() {
-	if !option.isFunc() {
-		option.value.Set(option.emptyValue())
+	if option.isFunc() {
+		return
 	}
+
+	if !option.value.CanSet() && option.value.Kind() == reflect.Ptr && !option.value.IsNil() {
+		// Options added with Group.AddOption are bound through a pointer
+		// which cannot itself be replaced: empty the variable it points to
+		elem := option.value.Elem()
+
+		if elem.Kind() == reflect.Map {
+			elem.Set(reflect.MakeMap(elem.Type()))
+		} else {
+			elem.Set(reflect.Zero(elem.Type()))
+		}
+
+		return
+	}
+
+	option.value.Set(option.emptyValue())
 }
 
 func (option *Option) clearDefault() error {
